@@ -257,3 +257,9 @@ Arguments replace_val {K V}. Arguments insert_at {K V}.
 Arguments encode_map {V}. Arguments encode {V}. Arguments encode_e {V}.
 Arguments split_keys {V}. Arguments map_inner {V}. Arguments decode {V}.
 Arguments decode_e {V}. Arguments vdec_res {V}.
+
+(** a one-bit value codec, used to instantiate the theorems on concrete
+    dictionaries (Examples and refutation witnesses) *)
+Definition venc_bit (b : bool) : bits := [b].
+Definition vdec_bit (l : bits) : option (bool * bits) :=
+  match l with [] => None | b :: r => Some (b, r) end.
